@@ -207,6 +207,12 @@ impl FeatSpec {
         let mut out = String::new();
         out += &tags_line("", &self.tags);
         out += &format!("Feature: {fname}\n");
+        // `@empty-bg` on the feature: a `Background:` section is declared even where it has
+        // no steps (feature level and in every rule)
+        let empty_bg = self.tags.iter().any(|t| t == "empty-bg");
+        if self.bg.is_empty() && empty_bg {
+            out += "  Background:\n";
+        }
         if !self.bg.is_empty() {
             out += "  Background:\n";
             for (n, k) in self.bg.iter().enumerate() {
@@ -248,6 +254,9 @@ impl FeatSpec {
                 out += "  Rule:\n";
             } else {
                 out += &format!("  Rule: {rname}\n");
+            }
+            if r.bg.is_empty() && empty_bg {
+                out += "    Background:\n";
             }
             if !r.bg.is_empty() {
                 out += "    Background:\n";
